@@ -1,1 +1,2 @@
-pub fn placeholder() {}
+pub mod dynbuild;
+pub mod rt;
